@@ -55,7 +55,9 @@ func (endpoint *PairSetup) ServeHTTP(response http.ResponseWriter, request *http
 		log.Debug.Println("Create new pair setup controller")
 
 		if ctrl, err = pair.NewSetupServerController(endpoint.device, endpoint.database); err != nil {
-			log.Info.Panic(err)
+			log.Info.Println(err)
+			response.WriteHeader(http.StatusInternalServerError)
+			return
 		}
 
 		session.SetPairSetupHandler(ctrl)
